@@ -378,6 +378,68 @@ Inductive stepres :=
 
 Definition is_some {A} (x : option A) : bool := match x with Some _ => true | None => false end.
 
+(* the arms of the match on (o.val(), c.typ(), c.indirect()) in the work loop; [td] is the todo
+   after get_next_check, [ex1] the examined set after state.examine, [tc] the check as popped
+   and [c] its resolution *)
+Definition step_arm (td : todo) (ex1 : list pend) (k' : nat) (o : obj) (tc : chk) (c : rep) : stepres * nat :=
+  let cont td' e := (SCont td' ex1 e, k') in
+  let stop x := (SStop x, k') in
+  match o, r_ty c, r_ind c with
+  | ORef _ _, _, IForb => cont td (Some EValue)
+  | ORef n g, _, _ =>
+    match (match octx_get octx_ (n, g) with
+           | Some o' => return_check td (o', allow_indirect c)
+           | None => return_check td (ONull, tc)
+           end) with
+    | Some td' => cont td' None
+    | None => stop Panicked
+    end
+  | _, _, IReq => cont td (Some EValue)
+  | _, TDisj _, _ => stop (SpecErr EPredErr)
+  | _, TAny, _ => cont td (check_pred o (r_pred c))
+  | _, TPrim p, _ =>
+    if prim_match o p then cont td (check_pred o (r_pred c)) else cont td (Some EType)
+  | OArr l, TArr e sz, _ =>
+    if match sz with Some n => negb (Nat.eqb (len l) n) | None => false end
+    then cont td (Some ESize)
+    else match resolve e with
+         | None => stop (SpecErr EUnknown)
+         | Some re =>
+           match r_ty re with
+           | TAny => cont td (check_pred o (r_pred c))
+           | _ => cont (push_checks ex1 td (List.map (fun x => (x, e)) l)) None
+           end
+         end
+  | OArr l, THet es, _ =>
+    if negb (Nat.eqb (len l) (len es)) then cont td (Some ESize)
+    else cont (push_checks ex1 td (combine l es)) None
+  | ODict d, TDict ents star, _ =>
+    match dict_ents d ents with
+    | None => stop (SpecErr EUnknown)
+    | Some (Some e, _) => cont td (Some e)
+    | Some (None, cs) =>
+      match star with
+      | None => cont (push_checks ex1 td cs) None
+      | Some (sc, sopt) =>
+        match resolve sc with
+        | None => stop (SpecErr EUnknown)
+        | Some rs =>
+          match star_ents d (List.map ent_key ents) sc sopt (r_ty rs) with
+          | (Some e, _) => cont td (Some e)
+          | (None, cs2) => cont (push_checks ex1 td (cs ++ cs2)) None
+          end
+        end
+      end
+    end
+  | OStream d _, TStream ents, _ =>
+    match stream_ents d ents with
+    | None => stop (SpecErr EUnknown)
+    | Some (Some e, _) => cont td (Some e)
+    | Some (None, cs) => cont (push_checks ex1 td cs) None
+    end
+  | _, _, _ => cont td (Some EType)
+  end.
+
 (* one iteration of the work loop of check_type *)
 Definition step (td : todo) (ex : list pend) (err : option tcerr) (k : nat) : stepres * nat :=
   match get_next (S (todo_size td)) (is_some err) td (S k) with
@@ -392,65 +454,7 @@ Definition step (td : todo) (ex : list pend) (err : option tcerr) (k : nat) : st
     | None => (SStop (SpecErr EUnknown), k')
     | Some c =>
       if have_examined ex (o, tc) then (SCont td ex err, k')    (* skipped: [result] is left as it was *)
-      else
-        let ex1 := (o, tc) :: ex in
-        let cont td' e := (SCont td' ex1 e, k') in
-        let stop x := (SStop x, k') in
-        match o, r_ty c, r_ind c with
-        | ORef _ _, _, IForb => cont td (Some EValue)
-        | ORef n g, _, _ =>
-          match (match octx_get octx_ (n, g) with
-                 | Some o' => return_check td (o', allow_indirect c)
-                 | None => return_check td (ONull, tc)
-                 end) with
-          | Some td' => cont td' None
-          | None => stop Panicked
-          end
-        | _, _, IReq => cont td (Some EValue)
-        | _, TDisj _, _ => stop (SpecErr EPredErr)
-        | _, TAny, _ => cont td (check_pred o (r_pred c))
-        | _, TPrim p, _ =>
-          if prim_match o p then cont td (check_pred o (r_pred c)) else cont td (Some EType)
-        | OArr l, TArr e sz, _ =>
-          if match sz with Some n => negb (Nat.eqb (len l) n) | None => false end
-          then cont td (Some ESize)
-          else match resolve e with
-               | None => stop (SpecErr EUnknown)
-               | Some re =>
-                 match r_ty re with
-                 | TAny => cont td (check_pred o (r_pred c))
-                 | _ => cont (push_checks ex1 td (List.map (fun x => (x, e)) l)) None
-                 end
-               end
-        | OArr l, THet es, _ =>
-          if negb (Nat.eqb (len l) (len es)) then cont td (Some ESize)
-          else cont (push_checks ex1 td (combine l es)) None
-        | ODict d, TDict ents star, _ =>
-          match dict_ents d ents with
-          | None => stop (SpecErr EUnknown)
-          | Some (Some e, _) => cont td (Some e)
-          | Some (None, cs) =>
-            match star with
-            | None => cont (push_checks ex1 td cs) None
-            | Some (sc, sopt) =>
-              match resolve sc with
-              | None => stop (SpecErr EUnknown)
-              | Some rs =>
-                match star_ents d (List.map ent_key ents) sc sopt (r_ty rs) with
-                | (Some e, _) => cont td (Some e)
-                | (None, cs2) => cont (push_checks ex1 td (cs ++ cs2)) None
-                end
-              end
-            end
-          end
-        | OStream d _, TStream ents, _ =>
-          match stream_ents d ents with
-          | None => stop (SpecErr EUnknown)
-          | Some (Some e, _) => cont td (Some e)
-          | Some (None, cs) => cont (push_checks ex1 td cs) None
-          end
-        | _, _, _ => cont td (Some EType)
-        end
+      else step_arm td ((o, tc) :: ex) k' o tc c                (* state.examine; result = None *)
     end
   end.
 
